@@ -238,9 +238,9 @@ DoubleSupport::divide(
         // This is NaN...
         return getNaN();
     }
-    else if (theLHS > 0.0L && isPositiveZero(theRHS) == true)
+    else if ((theLHS > 0.0L) == isPositiveZero(theRHS))
     {
-        // This is positive infinity...
+        // The operands have the same sign: this is positive infinity...
         return getPositiveInfinity();
     }
     else
